@@ -750,7 +750,9 @@ macro_rules! make_ewr_system {
                 if let Some((e, v)) = l
                 {
                     let e2 = std::panic::catch_unwind(std::panic::AssertUnwindSafe(|| loc.entity())).ok();
-                    let m = std::panic::catch_unwind(std::panic::AssertUnwindSafe(|| { let (e3, v3) = loc.get_mut(); let r = (e3, *v3); *v3 = r.1; r })).ok();
+                    // ... and every run caused by an entity adds 100 to that entity's local data through `get_mut` (what later
+                    // runs for it must see: "as last modified by earlier runs for it")
+                    let m = std::panic::catch_unwind(std::panic::AssertUnwindSafe(|| { let (e3, v3) = loc.get_mut(); let r = (e3, *v3); *v3 = r.1 + 100; r })).ok();
                     if e2 != Some(e) || m != Some((e, v))
                     { log(format!("accessor-mismatch EntityLocal get={}:{} entity={:?} get_mut={:?}", name_of(e), v, e2.map(name_of), m.map(|(x, y)| (name_of(x), y)))); }
                 }
